@@ -196,6 +196,13 @@ class World:
             cb_outs = [(a, miner), (value - a, KEYS[(op.get("miner", 0) + 1) % len(KEYS)].pub)]
         elif shape == "times3":                         # three outputs EACH of the full amount
             cb_outs = [(value, KEYS[(op.get("miner", 0) + j) % len(KEYS)].pub) for j in range(3)]
+        elif shape == "zero_extra":                     # a second output worth nothing (legal for a reward: only the sum is bounded)
+            cb_outs = [(value, miner), (0, KEYS[(op.get("miner", 0) + 1) % len(KEYS)].pub)]
+        elif shape == "zero_only":
+            cb_outs = [(0, miner)]
+        elif shape == "many":                           # five outputs summing to the bound
+            q = value // 5
+            cb_outs = [(q, KEYS[(op.get("miner", 0) + j) % len(KEYS)].pub) for j in range(4)] + [(value - 4 * q, miner)]
         elif shape == "none":
             cb_outs = []
         elif shape == "less":
